@@ -140,13 +140,22 @@ batch that leaves a point with an indexed string — or string-array element —
 although the documentation allows it.  The equivalence below is stated for the memory backend without
 condition and for the file backend under "no written document holds such a string". -/
 
+/-- a string does not fold to the empty byte string (anything that is not a string: nothing to say) -/
+def strNonEmpty (lower : Bytes → Bytes) (cs : Bool) : C02.Val → Bool
+  | .str b => !(if cs then b else lower b).isEmpty
+  | _ => true
+
+def emptyFreeAt (lower : Bytes → Bytes) : C02.Kind → At → Bool
+  | .str cs, .value v => strNonEmpty lower cs v
+  | .strArr cs, .value (.arr l) => l.all (strNonEmpty lower cs)
+  | _, _ => true
+
 /-- no string the document holds under a string / string-array index folds to the empty byte string -/
 def emptyFree (lower : Bytes → Bytes) (cv : Conv) (schema : Schema) (d : C01.Doc) : Prop :=
-  ∀ e ∈ schema,
-    match e.2, jsonAt (idxDoc cv d) e.1 with
-    | .str cs, .value (.str b) => (if cs then b else lower b) ≠ []
-    | .strArr cs, .value (.arr l) => ∀ b, C02.Val.str b ∈ l → (if cs then b else lower b) ≠ []
-    | _, _ => True
+  ∀ e ∈ schema, emptyFreeAt lower e.2 (jsonAt (idxDoc cv d) e.1) = true
+
+instance (lower : Bytes → Bytes) (cv : Conv) (schema : Schema) : DecidablePred (emptyFree lower cv schema) := fun d => by
+  unfold emptyFree; exact inferInstance
 
 /-! ### the reference run, built on `Acceptable` alone -/
 
